@@ -115,6 +115,121 @@ theorem erase_length_le (s : GoStr) : (erase s).length ≤ s.length := (erase_su
 /-- the hypotheses of `erase_nukeBefore` are met by a real buffer: blank, line break, marker, `<p>` -/
 example : erase ([97, 32, 10] ++ (Gen.NukeBefore ++ [60, 112, 62])) = [97, 60, 112, 62] := by decide +kernel
 
+/-- no marker sequence starts inside the prefix `a` of the buffer `a ++ t` (the text behind `a` counts:
+a marker may straddle the boundary, white space at the end of `a` may lead up to a marker in `t`) -/
+def CleanPre : GoStr → GoStr → Prop
+  | [], _ => True
+  | b :: r, t => clean1 (b :: (r ++ t)) = true ∧ CleanPre r t
+
+theorem eraseAux_cleanPre (n : Nat) (a t acc : GoStr) (h : CleanPre a t) :
+    eraseAux (n + a.length) (a ++ t) acc = eraseAux n t (a.reverse ++ acc) := by
+  induction a generalizing acc with
+  | nil => simp
+  | cons b r ih =>
+    obtain ⟨h1, h2⟩ := h
+    simp only [clean1, Bool.and_eq_true, Bool.not_eq_true'] at h1
+    have : n + (b :: r).length = (n + r.length) + 1 := by simp; omega
+    rw [this]
+    simp only [List.cons_append, eraseAux, h1.1, h1.2, Bool.false_eq_true, if_false]
+    rw [ih _ h2]; simp
+
+/-- **One `<` marker, whole buffer** — a buffer `a ~☢< ws b` in which no other marker occurs is written
+out as `a b`: the marker and the white space after it are gone, every other byte stays. -/
+theorem erase_one_nukeAfter (a ws b : GoStr) (ha : CleanPre a (Gen.NukeAfter ++ (ws ++ b)))
+    (hws : ∀ x ∈ ws, isWS x = true) (hb0 : ∀ x r, b = x :: r → isWS x = false) (hb : MarkerFree b) :
+    erase (a ++ (Gen.NukeAfter ++ (ws ++ b))) = a ++ b := by
+  unfold erase
+  have hl : (a ++ (Gen.NukeAfter ++ (ws ++ b))).length + 1 = ((Gen.NukeAfter.length + ws.length + b.length) + 1) + a.length := by
+    simp; omega
+  rw [hl, eraseAux_cleanPre _ _ _ _ ha, erase_nukeAfter, dropWhile_ws_append ws b hws hb0,
+    eraseAux_markerFree _ _ _ hb (by simp [Gen.NukeAfter]; omega)]
+  simp
+
+/-- **One `>` marker, whole buffer** — likewise `a ws >☢~ b` is written out as `a b`. -/
+theorem erase_one_nukeBefore (a ws b : GoStr) (ha : CleanPre a (ws ++ (Gen.NukeBefore ++ b)))
+    (hws : ∀ x ∈ ws, isWS x = true) (hb : MarkerFree b) :
+    erase (a ++ (ws ++ (Gen.NukeBefore ++ b))) = a ++ b := by
+  unfold erase
+  have hl : (a ++ (ws ++ (Gen.NukeBefore ++ b))).length + 1 = ((Gen.NukeBefore.length + ws.length + b.length) + 1) + a.length := by
+    simp; omega
+  rw [hl, eraseAux_cleanPre _ _ _ _ ha, erase_nukeBefore _ _ _ _ hws,
+    eraseAux_markerFree _ _ _ hb (by simp [Gen.NukeBefore]; omega)]
+  simp
+
+
+theorem eraseAux_acc (fuel : Nat) (s acc : GoStr) : eraseAux fuel s acc = acc.reverse ++ eraseAux fuel s [] := by
+  induction fuel generalizing s acc with
+  | zero => simp [eraseAux]
+  | succ n ih =>
+    cases s with
+    | nil => simp [eraseAux]
+    | cons b rest =>
+      simp only [eraseAux]
+      split
+      · exact ih _ _
+      · split
+        · exact ih _ _
+        · rw [ih rest (b :: acc), ih rest [b]]; simp
+
+/-- the fuel of the scanner is only a termination device: any amount above the length gives the same result -/
+theorem eraseAux_fuel (fuel fuel' : Nat) (s : GoStr) (h : s.length < fuel) (h' : s.length < fuel') :
+    eraseAux fuel s [] = eraseAux fuel' s [] := by
+  induction fuel generalizing s fuel' with
+  | zero => omega
+  | succ n ih =>
+    cases fuel' with
+    | zero => omega
+    | succ m =>
+      cases s with
+      | nil => simp [eraseAux]
+      | cons b rest =>
+        simp only [List.length_cons] at h h'
+        simp only [eraseAux]
+        split
+        · have hl : (((b :: rest).drop Gen.NukeAfter.length).dropWhile isWS).length ≤ rest.length := by
+            refine Nat.le_trans (List.dropWhile_sublist _).length_le ?_
+            simp [Gen.NukeAfter]
+          exact ih _ _ (by omega) (by omega)
+        · split
+          · have hl : (((b :: rest).dropWhile isWS).drop Gen.NukeBefore.length).length ≤ rest.length := by
+              have := (List.dropWhile_sublist isWS (l := b :: rest)).length_le
+              simp [Gen.NukeBefore] at this ⊢; omega
+            exact ih _ _ (by omega) (by omega)
+          · rw [eraseAux_acc n, eraseAux_acc m, ih m rest (by omega) (by omega)]
+
+theorem eraseAux_eq_erase (fuel : Nat) (s acc : GoStr) (h : s.length < fuel) :
+    eraseAux fuel s acc = acc.reverse ++ erase s := by
+  rw [eraseAux_acc]; unfold erase; rw [eraseAux_fuel fuel (s.length + 1) s h (by omega)]
+
+/-- **Marker by marker (`<`)** — the text before the first marker is written out unchanged, the marker
+and the white space after it disappear, and the rest of the buffer is treated the same way: with
+`erase_markerFree` for the last stretch this determines the output of every buffer, whatever its length
+and however many markers it holds. -/
+theorem erase_step_nukeAfter (a ws t : GoStr) (ha : CleanPre a (Gen.NukeAfter ++ (ws ++ t)))
+    (hws : ∀ x ∈ ws, isWS x = true) (ht0 : ∀ x r, t = x :: r → isWS x = false) :
+    erase (a ++ (Gen.NukeAfter ++ (ws ++ t))) = a ++ erase t := by
+  unfold erase
+  have hl : (a ++ (Gen.NukeAfter ++ (ws ++ t))).length + 1 = ((Gen.NukeAfter.length + ws.length + t.length) + 1) + a.length := by
+    simp; omega
+  rw [hl, eraseAux_cleanPre _ _ _ _ ha, erase_nukeAfter, dropWhile_ws_append ws t hws ht0,
+    eraseAux_eq_erase _ _ _ (by simp [Gen.NukeAfter]; omega)]
+  simp [erase]
+
+/-- **Marker by marker (`>`)**. -/
+theorem erase_step_nukeBefore (a ws t : GoStr) (ha : CleanPre a (ws ++ (Gen.NukeBefore ++ t)))
+    (hws : ∀ x ∈ ws, isWS x = true) :
+    erase (a ++ (ws ++ (Gen.NukeBefore ++ t))) = a ++ erase t := by
+  unfold erase
+  have hl : (a ++ (ws ++ (Gen.NukeBefore ++ t))).length + 1 = ((Gen.NukeBefore.length + ws.length + t.length) + 1) + a.length := by
+    simp; omega
+  rw [hl, eraseAux_cleanPre _ _ _ _ ha, erase_nukeBefore _ _ _ _ hws,
+    eraseAux_eq_erase _ _ _ (by simp [Gen.NukeBefore]; omega)]
+  simp [erase]
+
+/-- the hypotheses are met by a real buffer: `<p>` marker blank line-break `x</p>` -/
+example : CleanPre [60, 112, 62] (Gen.NukeAfter ++ ([32, 10] ++ [120, 60, 47, 112, 62])) ∧ MarkerFree [120, 60, 47, 112, 62] := by
+  simp [CleanPre, MarkerFree, clean1, Gen.NukeAfter, Gen.NukeBefore, List.isPrefixOf, isWS]
+
 /-- the constants the eraser is built from, as extracted from runtime.go on this run -/
 theorem extracted_markers :
     Gen.NukeAfter = [126, 226, 152, 162, 60] ∧ Gen.NukeBefore = [62, 226, 152, 162, 126] ∧
@@ -146,7 +261,9 @@ theorem void_element_layout (fuel : Nat) (c : Ctx) (e : Elem) (kids : List Node)
   subst hb
   simp [execNode, hs, hno, hobj, hid, hcl, hat, hcmd, bind, Except.bind, pure, Except.pure, List.foldlM]
 
--- PLANNED: SentinelFree t env → erase (execOut t env) = layout t env (structural layout function)
+-- PLANNED: SentinelFree t env → erase (execOut t env) = layout t env (structural layout function); the eraser half
+--          is done (`erase_step_nukeAfter` / `erase_step_nukeBefore` / `erase_markerFree` determine `erase` on every buffer),
+--          what is missing is the shape of `execOut t env` as a sequence of such stretches
 -- PLANNED: ¬ containsMarker (erase (execOut t env)) under SentinelFree (false without it: the eraser can
 --          bring the halves of a marker together, `erase_sublist` is what holds for every buffer)
 -- KNOWN (recorded finding): content containing the marker sequences (static or dynamic) is altered
